@@ -62,7 +62,7 @@ fn main() {
     for i in 0..n {
         let mut srng = rng.fork();
         let w = match family {
-            "conflict" | "converge" | "hist" => {
+            "conflict" | "converge" | "hist" | "conflictdiff" | "conflictpatch" | "rollbackc" => {
                 use serde_json::json;
                 let mut prof = Profile::all();
                 prof.texts = false;
@@ -82,7 +82,9 @@ fn main() {
                     base_calls: base,
                     readat: if family == "hist" { 12 } else { 0 },
                     reload_before_readat: false,
-                    rollback_pct: 0,
+                    rollback_pct: if family == "rollbackc" { 50 } else { 0 },
+                    diffs: if family == "conflictdiff" { 8 } else { 0 },
+                    log_patches: family == "conflictpatch",
                     steps: 10 + srng.below(10),
                     max_reps: 3,
                     max_changes: 12,
@@ -131,6 +133,8 @@ fn main() {
                     readat: if family == "hist" { 12 } else { 0 },
                     reload_before_readat: false,
                     rollback_pct: 0,
+                    diffs: 0,
+                    log_patches: false,
                     steps: 8 + srng.below(8),
                     max_reps: 3,
                     max_changes: 12,
@@ -141,7 +145,7 @@ fn main() {
                 };
                 scen::graph_scenario(i, &mut srng, &o, family)
             }
-            "doc" | "doctext" | "docinv" | "histdoc" | "reload" | "rollback" | "iso" => {
+            "doc" | "doctext" | "docinv" | "histdoc" | "reload" | "rollback" | "iso" | "diff" | "patch" => {
                 let text = family == "doctext";
                 let mut prof = Profile::all();
                 if family == "docinv" {
@@ -166,6 +170,8 @@ fn main() {
                     readat: if family == "histdoc" { 10 } else if family == "reload" { 6 } else { 0 },
                     reload_before_readat: family == "reload",
                     rollback_pct: if family == "rollback" { 45 } else { 0 },
+                    diffs: if family == "diff" { 6 } else { 0 },
+                    log_patches: family == "patch",
                     steps: 8 + srng.below(10),
                     max_reps: 3,
                     max_changes: 10,
@@ -185,6 +191,8 @@ fn main() {
                     readat: 0,
                     reload_before_readat: false,
                     rollback_pct: 0,
+                    diffs: 0,
+                    log_patches: false,
                     steps: 10 + srng.below(14),
                     max_reps: 4,
                     max_changes: 14,
@@ -231,6 +239,8 @@ fn dag_main(args: &[String]) {
                     readat: 0,
                     reload_before_readat: false,
             rollback_pct: 0,
+            diffs: 0,
+            log_patches: false,
             steps: 8 + srng.below(10),
             max_reps: 3,
             max_changes: maxc,
